@@ -879,6 +879,68 @@ func whitespaceNodesNotRendered(c *Ctx, gp *packages.Package) {
 		}
 		return false
 	}
+	// calleeStrips: the callee does nothing with its parameter i but hand it to the stripping function (or to a helper
+	// of which the same holds): the list is stripped there, before anything renders it
+	var calleeStrips func(fn *types.Func, i int, depth int) bool
+	calleeStrips = func(fn *types.Func, i int, depth int) bool {
+		if depth > 2 {
+			return false
+		}
+		for _, hd := range allFuncDecls(gp) {
+			if ginfo.Defs[hd.Name] != types.Object(fn) || hd.Body == nil {
+				continue
+			}
+			ps := paramObjs(ginfo, hd)
+			if i >= len(ps) || ps[i] == nil {
+				return false
+			}
+			uses, okAll := 0, true
+			var stack []ast.Node
+			ast.Inspect(hd.Body, func(m ast.Node) bool {
+				if m == nil {
+					stack = stack[:len(stack)-1]
+					return true
+				}
+				stack = append(stack, m)
+				id, ok := m.(*ast.Ident)
+				if !ok || ginfo.Uses[id] != ps[i] {
+					return true
+				}
+				uses++
+				k := len(stack) - 2
+				for k >= 0 {
+					if _, isParen := stack[k].(*ast.ParenExpr); !isParen {
+						break
+					}
+					k--
+				}
+				pc, isCall := stack[k].(*ast.CallExpr)
+				if k < 0 || !isCall {
+					okAll = false
+					return true
+				}
+				cf := calleeOf(ginfo, pc)
+				switch {
+				case cf != nil && strip[cf]:
+				case cf != nil && cf.Pkg() != nil && cf.Pkg().Path() == pkgGenerator:
+					handed := false
+					for ai, a := range pc.Args {
+						if ast.Unparen(a) == ast.Expr(id) && calleeStrips(cf, ai, depth+1) {
+							handed = true
+						}
+					}
+					if !handed {
+						okAll = false
+					}
+				default:
+					okAll = false
+				}
+				return true
+			})
+			return uses > 0 && okAll
+		}
+		return false
+	}
 	ncall := 0
 	for _, fd := range allFuncDecls(gp) {
 		ast.Inspect(fd.Body, func(n ast.Node) bool {
@@ -920,7 +982,7 @@ func whitespaceNodesNotRendered(c *Ctx, gp *packages.Package) {
 				}
 				ncall++
 				key := fmt.Sprintf("%s|renders-stripped:%s", funcKey(gp, fd), types.ExprString(a))
-				c.check(isStripped(fd, a, 0), "C08.R5", key, c.pos(call.Pos()), "whitespace-only nodes are stripped before rendering",
+				c.check(isStripped(fd, a, 0) || calleeStrips(fn, i, 0), "C08.R5", key, c.pos(call.Pos()), "whitespace-only nodes are stripped before rendering",
 					fmt.Sprintf("%s renders the child list %s without stripping whitespace-only nodes: the formatter adds and removes such nodes (line breaks after comments and calls, `<x> </x>` → `<x></x>`), so formatting changes the rendered output", fd.Name.Name, types.ExprString(a)))
 			}
 			return true
